@@ -291,8 +291,9 @@ def q_jobs(bindir, prop, tier, seed, seq_enum=True, caps="unbounded,1,2,3", drop
     if droprace:
         jobs += shards(bindir, "queue_conc", prop + "-droprace", seed, NCPU, base + ["--mode", "droprace", "--cases", "400" if quick else "30000"], 3400)
     if blocked:
-        jobs += shards(bindir, "queue_conc", prop + "-blocked", seed, NCPU, base + ["--mode", "blocked", "--cases", "60" if quick else "4000"] + ([] if quick else ["--big"]), 3400)
-    if prop == "C09":
+        jobs += shards(bindir, "queue_conc", prop + "-blocked", seed, NCPU, base + ["--mode", "blocked", "--cases", "60" if quick else "4000"] + ([] if quick else ["--big"]), 3400,
+                       per_shard_args=lambda i: ["--huge-first"] if i == 0 or (not quick and i < 4) else [])
+    if prop in ("C09", "C08"):
         # a backlog behind a sink that takes ten (virtual) minutes per metric, hour-long idle periods: Miri's virtual clock
         jobs.append(miri_time_job(prop, seed, 4 if quick else 64, 1500 if quick else 7200))
     # Miri: compact histories under a random preemptive scheduler, hooks off; virtual-time quiescence
